@@ -142,6 +142,7 @@ func (pr *Program) VerifyFunc(fi *FuncInfo) (rep *FuncReport) {
 		rep.Error = "function has no body"
 		return
 	}
+	x.loopOrds = numberLoops(fi.Decl.Body)
 	end := x.execBlock(s, fi.Decl.Body.List)
 	if end != nil {
 		var vals []*Value
@@ -170,11 +171,13 @@ func (pr *Program) VerifyFunc(fi *FuncInfo) (rep *FuncReport) {
 	}
 	rep.Exits = len(rets)
 	// postconditions
+	proved := map[string][]*Term{} // tag -> goal per exit (earlier ensures usable as hypotheses via "by")
 	for _, cl := range c.Clauses {
 		switch cl.Kind {
 		case "ensures", "failsif":
 			goal := True
-			for _, e := range rets {
+			var perExit []*Term
+			for ei, e := range rets {
 				sc2 := *sc
 				sc2.results = e.Vals
 				es := e.S.Clone()
@@ -187,13 +190,23 @@ func (pr *Program) VerifyFunc(fi *FuncInfo) (rep *FuncReport) {
 				} else {
 					g = x.evalClause(es, cl, &sc2)
 				}
-				goal = And(goal, Implies(es.PC, g))
+				perExit = append(perExit, g)
+				hyp := es.PC
+				for _, u := range cl.Using {
+					if gs, ok := proved[u]; ok && ei < len(gs) {
+						hyp = And(hyp, gs[ei])
+					} else {
+						panic(execPanic{"ensures #" + cl.Tag + ": 'by #" + u + "' refers to no earlier ensures clause"})
+					}
+				}
+				goal = And(goal, Implies(hyp, g))
 			}
+			proved[cl.Tag] = perExit
 			kind := "ensures"
 			if cl.Kind == "failsif" {
 				kind = "fails_if"
 			}
-			x.Obls = append(x.Obls, &Obligation{Name: fmt.Sprintf("%s/%s#%s", x.fnTag, kind, cl.Tag), Prop: cl.propOr(c.Prop()), Kind: kind, Hyp: True, Goal: goal, Pos: pr.Pos(fi.Decl.Pos()), Src: cl.Src, Inputs: x.entryInputs})
+			x.Obls = append(x.Obls, &Obligation{Name: fmt.Sprintf("%s/%s#%s", x.fnTag, kind, cl.Tag), Prop: cl.propOr(c.Prop()), Kind: kind, Hyp: True, Goal: goal, Pos: pr.Pos(fi.Decl.Pos()), Src: cl.Src, Inputs: x.entryInputs, Slow: cl.Slow})
 		case "cover":
 			reach := False
 			for _, e := range rets {
@@ -493,6 +506,19 @@ func sumInstances(ts ...*Term) *Term {
 		out = append(out, Eq(sum(a, lo, lo), Zero))
 		out = append(out, Implies(Lt(lo, hi), Eq(st, Add(sum(a, lo, Sub(hi, One)), Select(a, Sub(hi, One))))))
 		out = append(out, Implies(Le(lo, hi), Eq(sum(a, lo, Add(hi, One)), Add(st, Select(a, hi)))))
+		// frame lemma (by induction on hi; trusted): a store at or beyond hi does not change the sum
+		for b := a; b.Op == "store"; b = b.Args[0] {
+			k := b.Args[1]
+			inner := b.Args[0]
+			out = append(out, Implies(Le(hi, k), Eq(sum(b, lo, hi), sum(inner, lo, hi))))
+			if b != a {
+				break
+			}
+		}
+		if a.Op == "store" {
+			k := a.Args[1]
+			out = append(out, Implies(Le(Sub(hi, One), k), Eq(sum(a, lo, Sub(hi, One)), sum(a.Args[0], lo, Sub(hi, One)))))
+		}
 	}
 	return And(out...)
 }
